@@ -161,8 +161,23 @@ func (sc *SCtx) ident(name string) (Val, error) {
 					}
 				}
 			}
+			// hidden iteration variables (range-over-int): the source variable is a
+			// per-iteration copy of a header phi
+			if hp := sc.g.hiddenPhi(sc.loopHeader, name); hp != nil {
+				if sc.lookup != nil {
+					if v, ok := sc.lookup(hp.Comment); ok {
+						return v, nil
+					}
+				}
+				if v, ok := sc.g.env[hp]; ok {
+					return v, nil
+				}
+			}
 		}
 		if v, ok := sc.g.params[name]; ok {
+			return v, nil
+		}
+		if v, ok := sc.g.ghostVals[name]; ok {
 			return v, nil
 		}
 		// source-level locals are visible only to loop invariants (and closures see
@@ -856,6 +871,10 @@ func (sc *SCtx) call(x *ECall) (Val, error) {
 				return Val{}, fmt.Errorf("as: not an interface value")
 			}
 			return scalar(v.T, ty), nil
+		case "ghost", "ghset":
+			// ghost(name, obj): ghost integer field of an object;
+			// ghset(name, obj, key): membership in a ghost set owned by the object
+			return sc.ghostRead(id.Name, x.Args)
 		case "fresh":
 			// fresh(x): the slice's backing array / the object was allocated during the call
 			if len(x.Args) != 1 {
@@ -878,6 +897,26 @@ func (sc *SCtx) call(x *ECall) (Val, error) {
 				return Val{}, fmt.Errorf("fresh: not a reference")
 			}
 			return scalar(Gt(ref, sc.old.Clk), types.Typ[types.Bool]), nil
+		case "new":
+			// new(x) in a loop invariant: allocated since the loop was entered
+			if len(x.Args) != 1 {
+				return Val{}, fmt.Errorf("new takes one argument")
+			}
+			li := sc.g.loops[sc.loopHeader]
+			if sc.loopHeader == nil || li == nil || li.PreState == nil {
+				return Val{}, fmt.Errorf("new() is only meaningful in a loop invariant")
+			}
+			v, err := sc.eval(x.Args[0])
+			if err != nil {
+				return Val{}, err
+			}
+			switch {
+			case v.K == VSlice:
+				return scalar(Gt(v.F[0].T, li.PreState.Clk), types.Typ[types.Bool]), nil
+			case v.K == VScalar && v.T != nil && v.T.S == SInt:
+				return scalar(Gt(v.T, li.PreState.Clk), types.Typ[types.Bool]), nil
+			}
+			return Val{}, fmt.Errorf("new: not a reference")
 		case "separate":
 			// separate(a, b): the two slices have different backing arrays
 			if len(x.Args) != 2 {
@@ -1286,4 +1325,103 @@ func (sc *SCtx) ifaceCall(it types.Type, fn *types.Func, recv Val, argEs []Expr)
 	r := g.applyContract(st, c, key, names, args, sig, resTy, 0, false)
 	g.quiet = saved
 	return r, nil
+}
+
+func ghostRef(v Val) (*Term, bool) {
+	switch {
+	case v.K == VScalar && v.T != nil && v.T.S == SInt:
+		return v.T, true
+	case v.K == VAddr && v.A != nil && v.A.Root == RObj && len(v.A.Path) == 0:
+		return v.A.Ref, true
+	}
+	return nil, false
+}
+
+func (sc *SCtx) ghostRead(kind string, args []Expr) (Val, error) {
+	g := sc.g
+	if len(args) < 2 {
+		return Val{}, fmt.Errorf("%s(name, object, ...) needs a name and an object", kind)
+	}
+	id, ok := args[0].(*EIdent)
+	if !ok {
+		return Val{}, fmt.Errorf("%s: the first argument is the ghost name", kind)
+	}
+	ov, err := sc.eval(args[1])
+	if err != nil {
+		return Val{}, err
+	}
+	ref, ok := ghostRef(ov)
+	if !ok {
+		return Val{}, fmt.Errorf("%s: %s is not an object reference", kind, ExprString(args[1]))
+	}
+	if kind == "ghost" {
+		if len(args) != 2 {
+			return Val{}, fmt.Errorf("ghost(name, object)")
+		}
+		h := g.heapGet(sc.state(), "O:ghost."+id.Name, ArraySort(SInt, SInt))
+		return scalar(Select(h, ref), types.Typ[types.Int64]), nil
+	}
+	if len(args) != 3 {
+		return Val{}, fmt.Errorf("ghset(name, object, key)")
+	}
+	kv, err := sc.eval(args[2])
+	if err != nil {
+		return Val{}, err
+	}
+	if kv.K != VScalar || kv.T == nil {
+		return Val{}, fmt.Errorf("ghset: key must be a scalar")
+	}
+	h := g.heapGet(sc.state(), "M:ghost."+id.Name+":"+kv.T.S.String(), ArraySort(SInt, ArraySort(kv.T.S, SBool)))
+	return scalar(Select(Select(h, ref), kv.T), types.Typ[types.Bool]), nil
+}
+
+// ghostLoc resolves a modifies entry ghost(name, obj) / ghset(name, obj) to the
+// component(s) and object reference it names.
+func (sc *SCtx) ghostLoc(m Expr) (comps []string, ref *Term, ok bool, err error) {
+	call, isCall := m.(*ECall)
+	if !isCall {
+		return nil, nil, false, nil
+	}
+	id, isId := call.Fun.(*EIdent)
+	if !isId || (id.Name != "ghost" && id.Name != "ghset") {
+		return nil, nil, false, nil
+	}
+	if len(call.Args) != 2 {
+		return nil, nil, true, fmt.Errorf("%s(name, object) in a modifies clause", id.Name)
+	}
+	nm, isN := call.Args[0].(*EIdent)
+	if !isN {
+		return nil, nil, true, fmt.Errorf("%s: the first argument is the ghost name", id.Name)
+	}
+	ov, e := sc.eval(call.Args[1])
+	if e != nil {
+		return nil, nil, true, e
+	}
+	r, isRef := ghostRef(ov)
+	if !isRef {
+		return nil, nil, true, fmt.Errorf("%s: not an object reference", id.Name)
+	}
+	g := sc.g
+	if id.Name == "ghost" {
+		n := "O:ghost." + nm.Name
+		g.heapGet(sc.state(), n, ArraySort(SInt, SInt))
+		return []string{n}, r, true, nil
+	}
+	pre := "M:ghost." + nm.Name + ":"
+	for _, n := range g.uniOrder {
+		if strings.HasPrefix(n, pre) {
+			comps = append(comps, n)
+		}
+	}
+	return comps, r, true, nil
+}
+
+// hiddenPhi: the header phi that a source variable of a range-over-int loop copies.
+func (g *Gen) hiddenPhi(h *ssa.BasicBlock, name string) *ssa.Phi {
+	for _, c := range g.debugVals[name] {
+		if phi, ok := c.V.(*ssa.Phi); ok && phi.Block() == h && phi.Comment != name {
+			return phi
+		}
+	}
+	return nil
 }
